@@ -473,9 +473,10 @@ def _check_naming(prog: Program, run: Run, ci, add_item: FuncInfo) -> None:
                                             loop.test.value is True):
         exit_tests.append((loop.test, False))
     for x in walk_no_nested(loop):
-        if isinstance(x, ast.If) and any(isinstance(b, ast.Break) for b in x.body):
+        if isinstance(x, ast.If) and any(isinstance(b, (ast.Break, ast.Return)) for b in x.body):
             exit_tests.append((x.test, True))
-        if isinstance(x, ast.If) and any(isinstance(b, ast.Break) for b in x.orelse):
+        if isinstance(x, ast.If) and any(isinstance(b, (ast.Break, ast.Return))
+                                         for b in x.orelse):
             exit_tests.append((x.test, False))
     if not exit_tests:
         raise AnalysisError("_add_attribute_item: collision loop has no recognisable exit test")
@@ -543,7 +544,13 @@ def _check_naming(prog: Program, run: Run, ci, add_item: FuncInfo) -> None:
                     a.targets[0], ast.Name) and a.targets[0].id == key and isinstance(
                         a.value, ast.Name):
                 alias.add(a.value.id)
-        if alias & cands and ast.unparse(s.value) == item and cfg.dominates(lh, cfg.node_of(s)):
+        # ... or it happens right where a candidate was found free (`if <free test>: store;
+        # return`, for the unmodified name in front of the loop and for the suffixed ones in it)
+        guarded_by_free = any((ast.unparse(t), pol) in {(ast.unparse(tt), pp)
+                                                         for tt, pp in exit_tests}
+                              for t, pol in cfg.branch_conditions(cfg.node_of(s)))
+        if alias & cands and ast.unparse(s.value) == item and (
+                cfg.dominates(lh, cfg.node_of(s)) or guarded_by_free):
             run.ok(R, f"{CLS}._add_attribute_item", "the item is stored under the name the "
                    "collision loop ended with", f"{f.module.rel}:{s.lineno}")
         else:
